@@ -319,6 +319,206 @@ theorem lossy_utf16_as_utf8_repl (v : Gen.Variant) (canAll : Bool) (ncrExtra : N
   rw [charsOf_utf8 _ (decodeUtf16Lossy_scalar units hu)] at p8
   exact repl_histories_agree v canAll ncrExtra _ b16 b8 had16 had8 p16 p8
 
+/-! ## cutting ONE buffer at a character boundary
+
+The caller of a streaming encoder cuts a buffer `src` at some index `n` and pushes `src[..n]` and
+`src[n..]` separately.  If `n` is a character boundary of the buffer (`Lemmas.EncSide.Bnd`: the width
+of a prefix of its characters — so never between the halves of a surrogate pair, never inside a UTF-8
+sequence) the two pieces read, on their own, as the characters before and after the cut: the sources
+only look at the units of the character they are reading (`Utf16Source` one unit further, to see whether
+a high surrogate is paired).  This holds for ANY buffer of units, also with unpaired surrogates. -/
+
+theorem getD_take (l : List Nat) (n i : Nat) (h : i < n) : (l.take n).getD i 0 = l.getD i 0 := by
+  simp [List.getD_eq_getElem?_getD, h]
+
+/-- `Utf16Source::read` does not depend on what follows the character it reads -/
+theorem read16_take (src : List Nat) (c w k : Nat) (h : read16 src = some (c, w)) :
+    read16 (src.take (w + k)) = some (c, w) := by
+  cases src with
+  | nil => simp [read16] at h
+  | cons u rest =>
+    by_cases h1 : u < 0xD800 ∨ 0xDFFF < u
+    · have hr : read16 (u :: rest) = some (u, 1) := by simp [read16, h1]
+      rw [hr] at h
+      simp only [Option.some.injEq, Prod.mk.injEq] at h
+      obtain ⟨rfl, rfl⟩ := h
+      rw [show 1 + k = k + 1 by omega, List.take_succ_cons]
+      simp [read16, h1]
+    · by_cases h2 : u ≤ 0xDBFF
+      · cases rest with
+        | nil =>
+          have hr : read16 [u] = some (0xFFFD, 1) := by simp [read16, h1, h2]
+          rw [hr] at h
+          simp only [Option.some.injEq, Prod.mk.injEq] at h
+          obtain ⟨rfl, rfl⟩ := h
+          rw [show 1 + k = k + 1 by omega, List.take_succ_cons]
+          simp [read16, h1, h2]
+        | cons lo t =>
+          by_cases h3 : 0xDC00 ≤ lo ∧ lo ≤ 0xDFFF
+          · have hr : read16 (u :: lo :: t) = some (0x10000 + (u - 0xD800) * 0x400 + (lo - 0xDC00), 2) := by
+              simp [read16, h1, h2, h3]
+            rw [hr] at h
+            simp only [Option.some.injEq, Prod.mk.injEq] at h
+            obtain ⟨rfl, rfl⟩ := h
+            rw [show 2 + k = (k + 1) + 1 by omega, List.take_succ_cons, List.take_succ_cons]
+            simp [read16, h1, h2, h3]
+          · have hr : read16 (u :: lo :: t) = some (0xFFFD, 1) := by simp [read16, h1, h2, h3]
+            rw [hr] at h
+            simp only [Option.some.injEq, Prod.mk.injEq] at h
+            obtain ⟨rfl, rfl⟩ := h
+            rw [show 1 + k = k + 1 by omega, List.take_succ_cons]
+            cases k with
+            | zero => simp [read16, h1, h2]
+            | succ k =>
+              rw [List.take_succ_cons]
+              simp [read16, h1, h2, h3]
+      · have hr : read16 (u :: rest) = some (0xFFFD, 1) := by simp [read16, h1, h2]
+        rw [hr] at h
+        simp only [Option.some.injEq, Prod.mk.injEq] at h
+        obtain ⟨rfl, rfl⟩ := h
+        rw [show 1 + k = k + 1 by omega, List.take_succ_cons]
+        simp [read16, h1, h2]
+
+/-- `Utf8Source::read` looks at the bytes of the sequence it reads only -/
+theorem read8_take (src : List Nat) (c w k : Nat) (h : read8 src = some (c, w)) :
+    read8 (src.take (w + k)) = some (c, w) := by
+  cases src with
+  | nil => simp [read8] at h
+  | cons a rest =>
+    by_cases h1 : a < 0x80
+    · have hr : read8 (a :: rest) = some (a, 1) := by simp [read8, h1]
+      rw [hr] at h
+      simp only [Option.some.injEq, Prod.mk.injEq] at h
+      obtain ⟨rfl, rfl⟩ := h
+      rw [show 1 + k = k + 1 by omega, List.take_succ_cons]
+      simp [read8, h1]
+    · by_cases h2 : a < 0xE0
+      · have hr : read8 (a :: rest) = some ((a % 32) * 64 + (rest.getD 0 0) % 64, 2) := by simp [read8, h1, h2]
+        rw [hr] at h
+        simp only [Option.some.injEq, Prod.mk.injEq] at h
+        obtain ⟨rfl, rfl⟩ := h
+        rw [show 2 + k = (k + 1) + 1 by omega, List.take_succ_cons]
+        simp only [read8, h1, h2, if_false, if_true]
+        rw [getD_take rest (k + 1) 0 (by omega)]
+      · by_cases h3 : a < 0xF0
+        · have hr : read8 (a :: rest)
+              = some ((a % 16) * 4096 + (rest.getD 0 0) % 64 * 64 + (rest.getD 1 0) % 64, 3) := by
+            simp [read8, h1, h2, h3]
+          rw [hr] at h
+          simp only [Option.some.injEq, Prod.mk.injEq] at h
+          obtain ⟨rfl, rfl⟩ := h
+          rw [show 3 + k = (k + 2) + 1 by omega, List.take_succ_cons]
+          simp only [read8, h1, h2, h3, if_false, if_true]
+          rw [getD_take rest (k + 2) 0 (by omega), getD_take rest (k + 2) 1 (by omega)]
+        · have hr : read8 (a :: rest)
+              = some ((a % 8) * 262144 + (rest.getD 0 0) % 64 * 4096 + (rest.getD 1 0) % 64 * 64
+                  + (rest.getD 2 0) % 64, 4) := by
+            simp [read8, h1, h2, h3]
+          rw [hr] at h
+          simp only [Option.some.injEq, Prod.mk.injEq] at h
+          obtain ⟨rfl, rfl⟩ := h
+          rw [show 4 + k = (k + 3) + 1 by omega, List.take_succ_cons]
+          simp only [read8, h1, h2, h3, if_false]
+          rw [getD_take rest (k + 3) 0 (by omega), getD_take rest (k + 3) 1 (by omega),
+            getD_take rest (k + 3) 2 (by omega)]
+
+/-- the items of the buffer truncated after a prefix `pre` of its items are `pre` -/
+theorem itemsOf_take_prefix (read : List Nat → Option (Nat × Nat))
+    (hw : ∀ units c w, read units = some (c, w) → 1 ≤ w) (hnil : read [] = none)
+    (hloc : ∀ src c w k, read src = some (c, w) → read (src.take (w + k)) = some (c, w)) :
+    ∀ (pre post : List (Nat × Nat)) (src : List Nat) (f1 f2 : Nat),
+      (src.take (widthSum pre)).length ≤ f2 → itemsOf read f1 src = pre ++ post →
+      itemsOf read f2 (src.take (widthSum pre)) = pre := by
+  intro pre
+  induction pre with
+  | nil =>
+    intro post src f1 f2 _ _
+    simp only [widthSum_nil, List.take_zero]
+    cases f2 <;> simp [itemsOf, hnil]
+  | cons it pre' ih =>
+    intro post src f1 f2 hf2 h
+    obtain ⟨c, w⟩ := it
+    cases f1 with
+    | zero => simp [itemsOf] at h
+    | succ f1 =>
+      cases hr : read src with
+      | none => simp [itemsOf, hr] at h
+      | some cw =>
+        obtain ⟨c0, w0⟩ := cw
+        simp only [itemsOf, hr, List.cons_append, List.cons.injEq, Prod.mk.injEq] at h
+        obtain ⟨⟨rfl, rfl⟩, hrest⟩ := h
+        have hw0 := hw src c0 w0 hr
+        have hne : src ≠ [] := by intro hc; rw [hc, hnil] at hr; cases hr
+        rw [widthSum_cons] at hf2 ⊢
+        have hread := hloc src c0 w0 (widthSum pre') hr
+        have hlen : 1 ≤ (src.take (w0 + widthSum pre')).length := by
+          cases src with
+          | nil => exact absurd rfl hne
+          | cons a r =>
+            rw [show w0 + widthSum pre' = (w0 - 1 + widthSum pre') + 1 by omega, List.take_succ_cons]
+            simp
+        cases f2 with
+        | zero => omega
+        | succ f2 =>
+          have hdrop : (src.take (w0 + widthSum pre')).drop w0 = (src.drop w0).take (widthSum pre') := by
+            rw [List.drop_take, show w0 + widthSum pre' - w0 = widthSum pre' by omega]
+          simp only [itemsOf, hread]
+          rw [hdrop]
+          congr 1
+          apply ih post (src.drop w0) f1 f2 _ hrest
+          rw [← hdrop, List.length_drop]
+          omega
+
+theorem itemsOfSrc_take (utf16 : Bool) (src : List Nat) (n : Nat) (h : Bnd utf16 src n) :
+    ∃ pre, itemsOfSrc utf16 src = pre ++ itemsOfSrc utf16 (src.drop n) ∧ itemsOfSrc utf16 (src.take n) = pre := by
+  obtain ⟨pre, h1, h2⟩ := h
+  refine ⟨pre, h1, ?_⟩
+  rw [h2]
+  cases utf16 with
+  | false =>
+    exact itemsOf_take_prefix read8 Lemmas.ConformEnc.read8_width rfl read8_take pre _ src src.length _
+      (Nat.le_refl _) h1
+  | true =>
+    exact itemsOf_take_prefix read16 Lemmas.ConformEnc.read16_width rfl read16_take pre _ src src.length _
+      (Nat.le_refl _) h1
+
+/-- **cutting a buffer at a character boundary**: the two pieces, read on their own, yield the
+characters of the whole buffer — for any buffer of units (unpaired surrogates included) and either
+source form -/
+theorem charsOf_take_drop (utf16 : Bool) (src : List Nat) (n : Nat) (h : Bnd utf16 src n) :
+    charsOf utf16 (src.take n) ++ charsOf utf16 (src.drop n) = charsOf utf16 src := by
+  obtain ⟨pre, h1, h2⟩ := itemsOfSrc_take utf16 src n h
+  unfold charsOf
+  rw [h2, h1, List.map_append]
+
+/-- hence: a history that pushes `src[..n]` (not `last`) and then `src[n..]`, for a cut `n` at a
+character boundary, yields the reference run of the characters of the whole buffer — the same as any
+history over the uncut buffer -/
+theorem cut_buffer_history (E : EFam) (L : ELaws E) (utf16 : Bool) (src : List Nat) (n : Nat)
+    (h : Bnd utf16 src n) (ecut ewhole : List EEv)
+    (pcut : ESrcProto E E.init [(utf16, src.take n), (utf16, src.drop n)] ecut)
+    (pwhole : ESrcProto E E.init [(utf16, src)] ewhole) :
+    ecut = ewhole ∧ ecut = eref E E.init (charsOf utf16 src) := by
+  have a := src_history_eq_ref E L _ _ _ pcut
+  have b := src_history_eq_ref E L _ _ _ pwhole
+  simp only [textOf, List.append_nil] at a b
+  rw [charsOf_take_drop utf16 src n h] at a
+  exact ⟨by rw [a, b], a⟩
+
+/-- the boundaries of a UTF-16 buffer are exactly what `Bnd` says; in particular the index between
+the halves of a surrogate pair is not one: the pair read as a whole has width 2 -/
+example : ¬ Bnd true [0xD83D, 0xDE00] 1 := by
+  rintro ⟨pre, h1, h2⟩
+  have hi : itemsOfSrc true [0xD83D, 0xDE00] = [(0x1F600, 2)] := by decide
+  rw [hi] at h1
+  cases pre with
+  | nil => simp [widthSum] at h2
+  | cons it t =>
+    simp only [List.cons_append, List.cons.injEq] at h1
+    obtain ⟨rfl, _⟩ := h1
+    simp only [widthSum_cons] at h2
+    omega
+
 /-! ## Non-vacuity
 
 x-user-defined, text `a` U+1F600 (astral, unmappable) `b`: as UTF-8 `61 F0 9F 98 80 62`, as UTF-16
